@@ -526,3 +526,68 @@ func RectSoup(r *Rng) (subj, clp Paths) {
 	clp = mk(r.Intn(8))
 	return
 }
+
+// RectCavity: frames assembled from four abutting / overlapping bars (so that the enclosed cavity only becomes a
+// separate ring through horizontal joins and join-splits), with islands - or further frames - inside the cavity.
+func RectCavity(r *Rng) (subj, clp Paths) {
+	scale := PickOf(r, int64(1), 10, 1000)
+	var all Paths
+	var frame func(x0, y0, x1, y1 int64, depth int)
+	frame = func(x0, y0, x1, y1 int64, depth int) {
+		if x1-x0 < 5 || y1-y0 < 5 {
+			return
+		}
+		t := int64(1)
+		ov := int64(0) // bars abut exactly (0) or overlap at the corners (1)
+		if r.Bool() {
+			ov = 1
+		}
+		bars := Paths{
+			Box(x0, y0, x1, y0+t, true),               // bottom
+			Box(x0, y1-t, x1, y1, true),               // top
+			Box(x0, y0+t-ov*t, x0+t, y1-t+ov*t, true), // left
+			Box(x1-t, y0+t-ov*t, x1, y1-t+ov*t, true), // right
+		}
+		if r.Chance(0.3) { // a U plus a separate closing bar
+			bars[1] = Box(x0+t, y1-t, x1-t, y1, true)
+		}
+		for _, i := range r.Perm(4) {
+			all = append(all, bars[i])
+		}
+		// island(s) in the cavity
+		ix0, iy0 := x0+t+r.Range(1, 2), y0+t+r.Range(1, 2)
+		ix1, iy1 := x1-t-r.Range(1, 2), y1-t-r.Range(1, 2)
+		if ix1-ix0 < 1 || iy1-iy0 < 1 {
+			return
+		}
+		if depth > 0 && r.Chance(0.6) {
+			frame(ix0, iy0, ix1, iy1, depth-1)
+		} else {
+			all = append(all, Box(ix0, iy0, r.Range(ix0+1, ix1), r.Range(iy0+1, iy1), true))
+		}
+	}
+	n := 1 + r.Intn(2)
+	for c := 0; c < n; c++ {
+		w, h := r.Range(7, 16), r.Range(7, 16)
+		ox := int64(c) * 20
+		frame(ox, 0, ox+w, h, 1+r.Intn(3))
+	}
+	for i := range all {
+		for j := range all[i] {
+			all[i][j].X *= scale
+			all[i][j].Y *= scale
+		}
+	}
+	// split between subject and clip
+	for _, p := range all {
+		if r.Chance(0.25) {
+			clp = append(clp, p)
+		} else {
+			subj = append(subj, p)
+		}
+	}
+	if len(subj) == 0 {
+		subj, clp = clp, nil
+	}
+	return
+}
